@@ -290,6 +290,10 @@ pub fn run(cx: &mut Cx) {
             };
             names.push((format!("{b2}-{v}"), rel));
         }
+        // the pattern's own text as a name ("an identical string always matches"
+        // holds for plain patterns only), also with a version appended
+        names.push((pat.clone(), "pattern-text"));
+        names.push((format!("{pat}-1.0"), "pattern-text"));
         match r.below(6) {
             0 => names.push((base.clone(), "no-dash")),
             1 => names.push((String::new(), "no-dash")),
